@@ -291,6 +291,34 @@ class Summaries:
         return ret
 
 
+def table_callees(prog, f, cls, call):
+    """callees of a call through a class-level table of handlers: `self.T[k](...)`, or `h(...)` with `h = self.T[k]` the only
+    binding of h in f, T = {key: method name, ...} at class level -> every method the table lists (else [])"""
+    cls = cls or f.cls
+    if cls is None:
+        return []
+    fn = call.func
+    if isinstance(fn, ast.Name):
+        binds = [n for n in walk_no_nested(f.node) if isinstance(n, ast.Assign) and any(isinstance(t, ast.Name) and t.id == fn.id for t in n.targets)]
+        if len(binds) != 1 or fn.id in f.params:
+            return []
+        fn = binds[0].value
+    if not (isinstance(fn, ast.Subscript) and isinstance(fn.value, ast.Attribute) and norm(fn.value.value) in ('self', 'cls', 'type(self)', 'self.__class__', cls.name)):
+        return []
+    v = prog.class_attr(cls, fn.value.attr)
+    v = v[1] if v is not None else None
+    if not (isinstance(v, ast.Dict) and v.values and all(isinstance(x, ast.Name) for x in v.values)):
+        return []
+    out = []
+    for x in v.values:
+        g = prog.resolve_method(cls, x.id)
+        if g is None:
+            return []
+        if g not in out:
+            out.append(g)
+    return out
+
+
 def walk_no_nested(fnode):
     stack = list(ast.iter_child_nodes(fnode))
     while stack:
@@ -519,7 +547,11 @@ class Effects:
                         if cl is not None and cl != FRESH and not (isinstance(recv, ast.Name) and env.get(recv.id) in (None,) and recv.id not in f.params):
                             out.append((n, f'in-place method `{norm(fn)[:40]}()`', cl))
                     callee = c.resolve(n)
-                    if callee is not None and callee.key != f.key:
+                    callees = [(callee, list(n.args))] if callee is not None else [(g, list(n.args)[1:] if n.args and norm(n.args[0]) == 'self' else list(n.args))
+                                                                                  for g in table_callees(self.prog, f, self.cls, n)]
+                    for callee, cargs in callees:
+                        if callee.key == f.key:
+                            continue
                         nk, _ = self.prog.numba_kind(callee)
                         roots, unk = self.written_param_roots(callee)
                         params = list(callee.params)
@@ -527,7 +559,7 @@ class Effects:
                         if params and params[0] in ('self', 'cls') and callee.cls is not None and not static:
                             params = params[1:]
                         amap = {}
-                        for i, a in enumerate(n.args):
+                        for i, a in enumerate(cargs):
                             if i < len(params):
                                 amap[params[i]] = a
                         for k in n.keywords:
